@@ -197,6 +197,7 @@ static void CmdW(const Json& cmd, JsonOut& o) {
     if (cmd.has("nolog")) w.log = false;
     if (cmd.has("refs")) for (auto& r : cmd.at("refs").a) w.refs.push_back(static_cast<int64_t>(WordOf(r)));
     if (cmd.at("hmode").is_str() && cmd.at("hmode").s == "affine") w.affine_handles = true;
+    if (cmd.at("hmode").is_str() && cmd.at("hmode").s == "refs-always") w.refs_for_empty = true;
     if (cmd.has("fault")) {
       w.SetFault(static_cast<long>(cmd.at("fault").at("k").num()), static_cast<int>(cmd.at("fault").at("e").num(16)));
       o.key("fault"); WriteJson(cmd.at("fault"), o);
@@ -458,6 +459,7 @@ static void CmdWCaps(const Json& cmd, JsonOut& o) {
     w.log = false;
     // the references the writer's out-of-band channel hands back for pushed handles (their size on the wire varies)
     if (cmd.has("refs")) for (auto& r : cmd.at("refs").a) w.refs.push_back(static_cast<int64_t>(WordOf(r)));
+    if (cmd.at("hmode").is_str() && cmd.at("hmode").s == "refs-always") w.refs_for_empty = true;
     o.key("ref"); o.begin_obj();
     ops->write(cmd.at("v"), w, o);
     EmitWriterState(w, o);
@@ -483,6 +485,7 @@ static void CmdWCaps(const Json& cmd, JsonOut& o) {
       DynWriter w(spec);
       w.log = false;
       if (cmd.has("refs")) for (auto& r : cmd.at("refs").a) w.refs.push_back(static_cast<int64_t>(WordOf(r)));
+      if (cmd.at("hmode").is_str() && cmd.at("hmode").s == "refs-always") w.refs_for_empty = true;
       JsonOut tmp;
       tmp.begin_obj();
       ops->write(cmd.at("v"), w, tmp);
